@@ -13,6 +13,7 @@ import (
 	"fmt"
 	"regexp"
 	"strings"
+	"unicode"
 
 	"github.com/zerx-lab/wordZero/pkg/document"
 	"github.com/zerx-lab/wordZero/pkg/markdown"
@@ -32,7 +33,7 @@ type wBlock struct {
 }
 
 var c20Words = []string{"alpha", "beta gamma", "Zürich", "中文", "x1", "end.", "a-b", "Q"}
-var c20Hard = []string{"2 * 3", "snake_case_name", "# not a heading", "a | b", "back`tick", "[link](x)", " lead", "trail ", "<tag>", "1. one", "- dash", "> quote", "star*", "\\slash"}
+var c20Hard = []string{"2 * 3", "snake_case_name", "# not a heading", "a | b", "back`tick", "[link](x)", " lead", "trail ", "<tag>", "1. one", "- dash", "> quote", "star*", "\\slash", "tab end\t", "\ttab start", "nbsp end\u00a0"}
 
 func genWRuns(r *rng, hard bool, feats map[string]int, plainOnly bool) []wRun {
 	var out []wRun
@@ -251,7 +252,7 @@ func viewString(v []vBlock) string {
 				fl += 8
 			}
 			for _, ch := range r.text {
-				if ch != ' ' {
+				if !unicode.IsSpace(ch) {
 					flags.WriteByte(fl)
 				}
 			}
@@ -313,7 +314,10 @@ func runC20(cfg *runCfg) error {
 			continue
 		}
 		dist.add(md)
-		cases = append(cases, fmt.Sprintf("mkCase (mkWOpts %s %s %s %s %s %d)\n  %s\n  %s", cBool(opts.UseGFMTables), cBool(opts.UseSetext), cStrRaw(opts.BulletListMarker), cStrRaw(opts.EmphasisMarker), cBool(opts.WrapLongLines), opts.MaxLineLength, wblocksCoq(d), cStrRaw(md)))
+		// the model treats white space as ASCII: documents with a no-break space are left to the oracle
+		if bc := wblocksCoq(d); !strings.Contains(bc, "\u00a0") {
+			cases = append(cases, fmt.Sprintf("mkCase (mkWOpts %s %s %s %s %s %d)\n  %s\n  %s", cBool(opts.UseGFMTables), cBool(opts.UseSetext), cStrRaw(opts.BulletListMarker), cStrRaw(opts.EmphasisMarker), cBool(opts.WrapLongLines), opts.MaxLineLength, bc, cStrRaw(md)))
+		}
 		v1 := trimView(viewDoc(d))
 		d2, err := markdown.NewConverter(mdOpts).ConvertString(md, nil)
 		if err != nil {
